@@ -175,7 +175,9 @@ def finit (k : Nat) : FState σ κ :=
   let n := (init P.M P.props P.key).frontier.length
   { m := ((Market.step (Market.init k k) (.xpush (List.range n) [])).getD (Market.init k k))
     c := init P.M P.props P.key
-    ft := List.range n
+    -- the machine's frontier lists the initial jobs LAST FIRST (the deque is read from its pop end): the job at the
+    -- back of the batch is entry 0 of the frontier
+    ft := (List.range n).reverse
     aw := [] }
 
 /-- a run; steps that are not enabled are skipped.  Result: state, market trace, machine trace -/
